@@ -70,6 +70,9 @@ def spellings():
     add("f_const", F, "validate(less = KF)", "!(x >= KF)")
     add("f_neg_const", F, "validate(less = -KF)", "!(x >= -KF)")
     add("f_neg_const_ge", F, "validate(greater_or_equal = -KF, finite)", "!(x < -KF) && x.is_finite()")
+    add("f_finite_lit_bounds", F, "validate(finite, greater_or_equal = 0.0, less_or_equal = 1.0)", "x.is_finite() && x >= 0.0 && x <= 1.0")
+    add("f_lit_bounds_finite_last", F, "validate(greater = -1, less = 1e3, finite)", "x.is_finite() && x > -1.0 && x < 1000.0")
+    add("f_finite_const_bounds", F, "validate(finite, greater_or_equal = -KF, less_or_equal = KF)", "x.is_finite() && x >= -KF && x <= KF")
     add("f_max", F, "validate(less_or_equal = f64::MAX)", "!(x > f64::MAX)")
     add("f_inf", F, "validate(less = f64::INFINITY)", "!(x >= f64::INFINITY)")
     add("f_neg_inf", F, "validate(greater = -f64::INFINITY)", "!(x <= -f64::INFINITY)")
@@ -97,10 +100,11 @@ def spellings():
     add("l_custom_with_path", I, "validate(with = vfn, error = MyErr)", "x < K")
     add("l_custom_error_first", I, "validate(error = MyErr, with = vfn)", "x < K")
     add("l_const_fn_first", I, "const_fn, validate(less = 7)", "x < 7")
-    # layouts the documented grammar refuses; if a tree accepts one, every written rule must still be enforced
-    add("l_mixed_with_no_error", I, "validate(less = 100, with = vfn)", "x < 100 && x < K")
-    add("l_mixed_with_error", I, "validate(less = 100, with = vfn, error = MyErr)", "x < 100 && x < K")
-    add("l_mixed_with_first", I, "validate(with = vfn, less = 100)", "x < 100 && x < K")
+    # layouts the documented grammar refuses; if a tree accepts one, every written rule must still be enforced (neither rule implies
+    # the other: dropping EITHER is visible)
+    add("l_mixed_with_no_error", I, "validate(greater = 0, with = vfn)", "x > 0 && x < K")
+    add("l_mixed_with_error", I, "validate(greater = 0, with = vfn, error = MyErr)", "x > 0 && x < K")
+    add("l_mixed_with_first", I, "validate(with = vfn, error = MyErr, greater = 0)", "x > 0 && x < K")
     add("l_builtin_with_error_only", I, "validate(greater = 0, error = MyErr)", "x > 0")
     add("l_dup_validator", I, "validate(less = 100, less = 10)", "x < 100 && x < 10")
     add("l_both_lower", I, "validate(greater = 0, greater_or_equal = 5)", "x > 0 && x >= 5")
